@@ -26,7 +26,9 @@ EXPLANATION = (
     "the 9 order cases (prefix length vs best, metric vs best) is true exactly for 'longer prefix' or 'equal prefix and "
     "lower metric' (exact ties left open); the running best starts below every prefix and above every metric and all "
     "three running values are updated together; R8.4 the default route is returned only when no specific route "
-    "matched. NOT decided (not applicable to static analysis): end-to-end reachability / delivery success of permitted "
+    "matched; R8.6 hosts: SessionManager returns a local interface only past `destination in its subnet` and `enabled`, "
+    "falls back to the default gateway only after all local interfaces were tried, and uses the gateway's MAC/interface "
+    "exactly when no local resolution succeeded. NOT decided (not applicable to static analysis): end-to-end reachability / delivery success of permitted "
     "exchanges over topologies, ARP behaviour under cold and warm caches, interleavings with interface toggles."
 )
 ASSUMPTIONS = ["Frame.decrement_ttl lowers ip.ttl by one (checked structurally)",
@@ -296,8 +298,57 @@ def r8_5(ctx: Ctx) -> None:
                    "the default route can override a specific route", path_text(p))
 
 
+def r8_6(ctx: Ctx) -> None:
+    ix = ctx.ix
+    ctx.rule("R8.6", "hosts send on the interface whose subnet contains the destination, and fall back to the default "
+                     "gateway only when no enabled local interface does")
+    f = ix.method("SessionManager.resolve_outbound_network_interface")
+    g = CFG(f.node)
+    loops = [n for n in g.nodes if n.kind == "for" and "network_interfaces" in unparse(n.ast.iter)]
+    if len(loops) != 1:
+        raise AnalysisError("R8.6: interface scan not found in resolve_outbound_network_interface")
+    lv = unparse(loops[0].ast.target)
+    local_rets = [n for n in g.nodes if n.kind == "stmt" and isinstance(n.ast, ast.Return) and n.ast.value is not None and unparse(n.ast.value) == lv]
+    gw_rets = [n for n in g.nodes if n.kind == "stmt" and isinstance(n.ast, ast.Return) and n.ast.value is not None and "default_gateway" in unparse(n.ast.value)]
+
+    def member(e) -> bool:
+        return bool(e.label and e.label[0] == "cond" and e.label[2] is True and isinstance(e.label[1], ast.Compare)
+                    and isinstance(e.label[1].ops[0], ast.In) and unparse(e.label[1].left) == "dst_ip_address" and unparse(e.label[1].comparators[0]) == f"{lv}.ip_network")
+
+    def enabled(e) -> bool:
+        return bool(e.label and e.label[0] == "cond" and e.label[2] is True and unparse(e.label[1]) == f"{lv}.enabled")
+
+    ok = bool(local_rets) and g.path_avoiding(local_rets, member) is None and g.path_avoiding(local_rets, enabled) is None
+    ctx.record("R8.6", ctx.key(f, "local interface only for its own subnet, and only when enabled"), f.loc(), ok,
+               "an interface is returned only past `dst in its ip_network` and `enabled`" if ok else "an interface outside the destination's subnet (or a disabled one) can be chosen")
+    okg = bool(gw_rets) and all(loops[0].ast not in r.loops for r in gw_rets) and g.path_avoiding(
+        gw_rets, lambda e: bool(e.label and e.label[0] == "iter" and e.label[2] is False)) is None
+    ctx.record("R8.6", ctx.key(f, "default gateway only after every local interface was tried"), f.loc(), okg,
+               "the gateway interface is returned only once the scan is exhausted" if okg else "the default gateway can pre-empt a directly connected subnet")
+    d = ix.method("SessionManager.resolve_outbound_transmission_details")
+    gd = CFG(d.node)
+    gw = nodes_calling(gd, ["get_default_gateway_mac_address", "get_default_gateway_network_interface"])
+    p = gd.path_avoiding(gw, lambda e: bool(e.label and e.label[0] == "cond" and unparse(e.label[1]) == "use_default_gateway" and e.label[2] is True))
+    ld = LocalDefs(d.node)
+    defs = [unparse(v) for v, _ in ld.all_values("use_default_gateway") if v is not None]
+    # the flag is lowered only where a MAC address was resolved on a local subnet
+    lowered = [n for n in gd.nodes if n.kind == "stmt" and isinstance(n.ast, ast.Assign) and any(unparse(t) == "use_default_gateway" for t in n.ast.targets)
+               and isinstance(n.ast.value, ast.Constant) and n.ast.value.value is False]
+    pl = gd.path_avoiding(lowered, lambda e: bool(e.label and e.label[0] == "cond" and unparse(e.label[1]) == "dst_mac_address" and e.label[2] is True))
+    ok = bool(gw) and p is None and bool(lowered) and pl is None
+    ctx.record("R8.6", ctx.key(d, "gateway MAC/interface used exactly when no local resolution succeeded"), d.loc(), ok,
+               f"gateway look-ups only on the use_default_gateway edge; flag values {defs}; lowered only when a local MAC was resolved" if ok else
+               "the default gateway is used for directly reachable hosts, or skipped for remote ones", path_text(p or pl))
+    arps = [n for n in gd.nodes if any(call_name(c) == "get_arp_cache_mac_address" for c in node_calls(n))]
+    pa = gd.path_avoiding(arps, lambda e: bool(e.label and e.label[0] == "cond" and e.label[2] is True and isinstance(e.label[1], ast.Compare)
+                                               and isinstance(e.label[1].ops[0], ast.In) and "ip_network" in unparse(e.label[1].comparators[0])))
+    ctx.record("R8.6", ctx.key(d, "ARP resolution only for destinations on a local subnet"), d.loc(), bool(arps) and pa is None,
+               "direct ARP look-up only past `dst in interface.ip_network`")
+
+
 def check(ctx: Ctx) -> None:
     ctx.rule("R8.4", "the default route is used only when no specific route matched")
+    r8_6(ctx)
     r8_1(ctx)
     r8_2(ctx)
     r8_3(ctx)
